@@ -97,7 +97,7 @@ func init() {
 				"C07.roots (who may reach InsertEvent / InsertFrameEvent), C07.store (a refused event leaves no trace in the store: the in-memory store caches a new event only after its per-creator index slot was accepted, the persistent store writes the database only after the in-memory store accepted it). NOT decided: soundness of ECDSA itself, state after a rejection beyond the listed fields, behaviour for concrete event sequences.",
 			Assumptions: commonAssumptions,
 		},
-		Rules: []ruleFunc{c07guard, c07index, c07after, c07wire, c07roots, c07verifyShape, c07store, func(p *Prog, r *Report) { digestRule(p, r, "C07.digest", []string{"EventBody"}) }},
+		Rules: []ruleFunc{c07guard, c07index, c07after, c07wire, c07roots, c07verifyShape, c07store, func(p *Prog, r *Report) { digestRule(p, r, "C07.digest", []string{"EventBody", "InternalTransactionBody"}) }},
 	})
 }
 
